@@ -88,6 +88,21 @@ def factsOf (cfg : Cfg) (o : OSet) (s : Sys) : List (Nat × ObjFacts) :=
 def phaseIdxOfKey (fs : List (Nat × ObjFacts)) (ks : String) : Option Nat :=
   (fs.find? fun f => keyStr f.2.key == ks).map (·.1)
 
+/-- Third-party operations that leave an object where it is and under the controller it has: writes
+to its status, payload, annotations or labels.  Everything else a third party can do inside a pass
+(re-owning, deleting, re-creating, releasing the finalizer of an object in deletion) may end the
+owner's control over it. -/
+def keepsControl (op : String) : Bool :=
+  op == "setReady" || op == "setPayload" || op == "setRev" || op == "relabel"
+
+/-- No third-party operation scheduled INSIDE the step can have taken the object under `k` away or
+out of the owner's control (the namespace is not compared: third parties address cluster-scoped
+kinds with or without one).  Together with "controlled in the pre-state" this is a fact about
+every instant of the pass in which PKO's own delete of the object has not gone through: a refused
+write (`wfault`) has no effect, third-party edits of the ObjectSet do not touch managed objects. -/
+def undisturbed (st : JStep) (k : Key) : Bool :=
+  !((st.env.getD []).any fun e => e.kind == k.kind && e.name == k.name && !keepsControl e.op)
+
 /-- does the step schedule any third-party interference? (then only the trace diff judges it) -/
 def quiet (st : JStep) : Bool := (st.env.getD []).isEmpty && (st.setEnv.getD []).isEmpty && st.wfault.isNone
 
@@ -142,6 +157,47 @@ def judgePhaseDeletes (scn : SysCommon.Scn) (cfg : Cfg) (st : JStep) (pre : Sys)
         match pre.w.store.get (keyOf cfg ow o) with
         | some c => if !isController cfg.st (ow.ref true) c then return some s!"bad delete-of-uncontrolled-object {e}"
         | none => return some s!"bad delete-of-absent-object {e}"
+  return none
+
+/-- C04 for a pass of the ObjectSetPhase controller on a phase object in deletion.  The ObjectSet
+takes the 404 of the phase object as the confirmation that the objects of the delegated phase are
+gone (`objectSetRemotePhaseReconciler.Teardown`), and the phase object goes when its finalizer
+does: so the finalizer is released only when no object the phase lists is still controlled by the
+phase object — judged, as for the ObjectSet, on the implementation's events against the facts of the
+pre-state that nothing inside the step can have changed. -/
+def judgePhaseTeardown (scn : SysCommon.Scn) (cfg : Cfg) (st : JStep) (pre : Sys) (out : StepOut) : Option String := Id.run do
+  let some p := pre.w.phases st.set | return none
+  if !p.deleting then return none
+  match out.events.find? (fun e => eventVerb e == "A") with
+  | some e => return some s!"bad apply-during-teardown-of-phase-object {e}"
+  | none => pure ()
+  -- (orphan propagation: nothing is deleted at all, C05)
+  if !p.finCached || p.finOrphan then return none
+  let ns := nsOf scn
+  let ow := Pko.Model.Remote.phaseOwner p (setKindOf scn) ns
+  let keys := p.objs.map (keyOf cfg ow)
+  if keys.eraseDups.length != keys.length then return none
+  if out.phaseEvents.any (fun pe => pe == s!"F {p.name} - ok") then
+    let mut unconfirmed : Option String := none
+    for o in p.objs do
+      let k := keyOf cfg ow o
+      match pre.w.store.get k with
+      | some c =>
+        if isController cfg.st (ow.ref true) c && cfg.scope o.kind != .unknown &&
+            (ns == "" || (desiredNs ow o == ns && cfg.scope o.kind == .namespaced)) && undisturbed st k then
+          -- (PKO's own delete removes an object nobody holds with a finalizer at once)
+          let deletedNow := !c.finalizer &&
+            out.events.any fun e => eventVerb e == "D" && eventKey e == keyStr k && (e.splitOn " ").getLastD "" == "ok"
+          if deletedNow then unconfirmed := unconfirmed.orElse fun _ => some (keyStr k)
+          else
+            let how := match out.events.find? (fun e => eventKey e == keyStr k) with
+              | some e => s!" (this pass: {e})"
+              | none => " (not looked at in this pass)"
+            return some s!"bad phase-object-released-while-still-controlling {keyStr k} phase-object={p.name}{how}"
+      | none => pure ()
+    match unconfirmed with
+    | some k => return some s!"bad phase-object-released-in-the-pass-that-deletes {k} phase-object={p.name} (absence not confirmed)"
+    | none => pure ()
   return none
 
 /-- C02 for a pass of the ObjectSetPhase controller. -/
@@ -508,6 +564,19 @@ def judge (which : Which) (scn : SysCommon.Scn) (cfg : Cfg) (st : JStep) (pre : 
           if ok then none else some i
     let failing := (fs.filter fun f => !f.2.passing).map (·.1) ++ delegatedFailing
     let firstFail := failing.foldl (fun (m : Option Nat) i => match m with | none => some i | some j => some (min i j)) none
+    -- a phase that passes for sure in a quiet pass.  Local phase: every object exists in the pre-state with
+    -- Ready=True (a paused ObjectSet reads through the cache only: the object carries the cache label)
+    -- and declares no observedGeneration — or declares the current generation while the pass has nothing
+    -- to change on the object (payload as desired: no generation bump).  Delegated phase: the phase
+    -- object exists, needs no pause flip and reports Available=True for its current generation.
+    let surePassObj (f : ObjFacts) : Bool := match f.cur with
+      | none => false
+      | some c => c.ready && (o.lifecycle != .paused || c.cacheLabel) &&
+          (match c.obsGen with | none => true | some g => g == c.gen && c.payload == f.p.payload)
+    let surePass (i : Nat) : Bool := match o.phases[i]? with
+      | none => false
+      | some ph => if ph.cls != "" then !delegatedFailing.contains i
+                   else (fs.filter (·.1 == i)).all fun f => surePassObj f.2
     for e in out.events do
       if eventVerb e == "A" then
         match phaseIdxOfKey fs (eventKey e), firstFail with
@@ -523,6 +592,16 @@ def judge (which : Which) (scn : SysCommon.Scn) (cfg : Cfg) (st : JStep) (pre : 
           | some n, some f => if n > f then return some s!"bad named-phase-after-first-failing named={c.2.2.2.2} first={f}"
           | some _, none => pure ()
           | none, _ => return some s!"bad unknown-phase-named {c.2.2.2.2}"
+          -- "the first failing phase … is the one named": the named phase FAILS in this pass.  A pass that
+          -- ends `ok` derived the condition from its own probing result (error / wait-for-revision paths
+          -- end `requeue` or `err` and may carry an older condition along), so the condition is a claim
+          -- about this pass — it may not name a phase whose objects are all present and passing.
+          match named with
+          | some n =>
+            if out.res == "ok" && surePass n then
+              let ff := match firstFail with | some f => toString f | none => "none"
+              return some s!"bad named-phase-is-not-failing named={c.2.2.2.2} phase-index={n} (every object of the named phase is present and passes its probes in this pass; first phase with an absent / failing object: {ff})"
+          | none => pure ()
           -- no write beyond the named phase
           match named with
           | some n =>
@@ -538,13 +617,20 @@ def judge (which : Which) (scn : SysCommon.Scn) (cfg : Cfg) (st : JStep) (pre : 
             | none => pure ()
     return none
   | .c04 =>
-    if !tearing || archivedDone || !quiet st || dupKeys then return none
+    -- Judged on what the IMPLEMENTATION reported in the step (its delete / release events) against
+    -- facts of the pre-state that nothing inside the step can have changed: an object counts as
+    -- "still controlled" when the ObjectSet controlled it before the pass and no third-party
+    -- operation scheduled inside the pass can have removed it or re-owned it (`undisturbed`).  So
+    -- passes with third-party writes between the GET and the DELETE / PATCH of an object's teardown,
+    -- with refused writes and with concurrent edits of the ObjectSet are judged like quiet ones.
+    if !tearing || archivedDone || dupKeys then return none
     if o.finOrphan then
       if !out.events.isEmpty then return some s!"bad write-during-orphan-teardown {out.events.headD ""}"
       match out.phaseEvents.find? (fun pe => pe.startsWith "X ") with
       | some pe => return some s!"bad delegated-phase-deleted-during-orphan-teardown {pe}"
       | none => pure ()
       return none
+    let held (f : Nat × ObjFacts) : Bool := f.2.controlled && undisturbed st f.2.key
     for e in out.events do
       if eventVerb e == "A" then return some s!"bad apply-during-teardown {e}"
       if eventVerb e == "D" then
@@ -552,19 +638,54 @@ def judge (which : Which) (scn : SysCommon.Scn) (cfg : Cfg) (st : JStep) (pre : 
         | none => return some s!"bad delete-of-unlisted-object {e}"
         | some k =>
           -- every object of a LATER phase must be gone or not controlled by us any more
-          match fs.find? (fun f => f.1 > k && f.2.controlled) with
+          match fs.find? (fun f => f.1 > k && held f) with
           | some f => return some s!"bad delete-before-later-phase-gone {e} still-controlled={keyStr f.2.key}"
           | none => pure ()
+    -- (phase objects are not within reach of the third-party operations of a pass)
     match judgePhaseObjectOrder o pre out with
     | some b => return some b
     | none => pure ()
+    -- a delegated phase's object is deleted only after the local phases behind it are gone
+    for pe in out.phaseEvents do
+      if pe.startsWith "X " then
+        let nm := (((pe.splitOn " ").getD 1 "").splitOn "/").getLastD ""
+        match (o.phases.zipIdx.find? fun (ph, _) => ph.cls != "" && o.name ++ "-" ++ ph.name == nm) with
+        | none => pure ()
+        | some (_, i) =>
+          match fs.find? (fun f => f.1 > i && held f) with
+          | some f => return some s!"bad phase-object-deleted-before-later-phase-gone {pe} still-controlled={keyStr f.2.key}"
+          | none => pure ()
+    -- … and a local phase's objects only after the delegated phases behind it are gone
+    for e in out.events do
+      if eventVerb e == "D" then
+        match phaseIdxOfKey fs (eventKey e) with
+        | none => pure ()
+        | some k =>
+          for (ph, j) in o.phases.zipIdx do
+            if j > k && ph.cls != "" then
+              match pre.w.phases (o.name ++ "-" ++ ph.name) with
+              | some po => if po.ctrlName == o.name && po.ctrlUID == o.uid then
+                  return some s!"bad delete-before-later-delegated-phase-gone {e} later={po.name}"
+              | none => pure ()
     let released := out.setEvents.any (fun se => se.startsWith s!"F {o.name} - ok") ||
-      out.setEvents.any (fun se => sOk se && hasCond (sConds se) "Archived" "True")
+      out.setEvents.any (fun se => sOk se && sName se == o.name && hasCond (sConds se) "Archived" "True")
     -- (an ObjectSet without the cached finalizer never rolled anything out; a third party stripping
     -- the finalizer is outside the property)
     if released && o.finCached then
-      match fs.find? (fun f => f.2.controlled) with
-      | some f => return some s!"bad released-while-still-controlling {keyStr f.2.key}"
+      -- PKO's own delete of an object that nobody holds with a finalizer removes it at once: such an
+      -- object is not "still controlled" at the release, but its absence has not been confirmed either
+      let deletedNow (f : Nat × ObjFacts) : Bool :=
+        (match f.2.cur with | some c => !c.finalizer | none => false) &&
+        out.events.any fun e => eventVerb e == "D" && eventKey e == keyStr f.2.key && (e.splitOn " ").getLastD "" == "ok"
+      match fs.find? (fun f => held f && !deletedNow f) with
+      | some f =>
+        let how := match out.events.find? (fun e => eventKey e == keyStr f.2.key) with
+          | some e => s!" (this pass: {e})"
+          | none => " (not looked at in this pass)"
+        return some s!"bad released-while-still-controlling {keyStr f.2.key}{how}"
+      | none => pure ()
+      match fs.find? held with
+      | some f => return some s!"bad released-in-the-pass-that-deletes {keyStr f.2.key} (absence not confirmed)"
       | none => pure ()
       -- delegated phases: the phase object (if it is ours) must be gone
       for ph in o.phases do
@@ -573,7 +694,7 @@ def judge (which : Which) (scn : SysCommon.Scn) (cfg : Cfg) (st : JStep) (pre : 
           | some po => if po.ctrlName == o.name && po.ctrlUID == o.uid then
               return some s!"bad released-while-delegated-phase-exists {po.name}"
           | none => pure ()
-    else if o.finCached then
+    else if o.finCached && quiet st then
       -- not released: the finalizer must not have been dropped, Archived must not be True
       if o.lifecycle == .archived && !(out.setEvents.any fun se => sOk se && hasCond (sConds se) "Archived" "False") && out.res == "ok" then
         return some "bad archival-in-progress-not-reported"
@@ -650,6 +771,10 @@ def judge (which : Which) (scn : SysCommon.Scn) (cfg : Cfg) (st : JStep) (pre : 
   | .c09 =>
     if o.lifecycle != .paused || tearing || archivedDone || !(st.setEnv.getD []).isEmpty then return none
     if !out.events.isEmpty then return some s!"bad write-while-paused {out.events.headD ""}"
+    -- a paused pass still has to report (Paused condition, probes of what is there): it must not fail
+    -- because this operator process has not registered the kinds with its dynamic cache (it starts
+    -- with none, and a paused revision is the only one that could be the first to read them)
+    if out.res == "err:CacheNotStarted" then return some "bad paused-pass-fails-cache-not-started"
     if out.res == "ok" && !dupKeys then
       match out.setEvents.reverse.find? sOk with      -- the final status update of the pass
       | none => return some "bad paused-status-not-reported"
@@ -705,6 +830,13 @@ def monitor (which : Which) (s : SysCommon.Scn) (out : String) : String := Id.ru
                  else if which == .c05 then judgePhaseDeletes s pcfgS st sys so
                  else judgePhaseStep s pcfgS st sys so
         match r with
+        | some b => return s!"{b} step={i}"
+        | none => pure ()
+    if st.op == "phase" && which == .c04 then
+      match parseStep tok with
+      | none => return s!"bad unparsable-step {i} {tok.take 40}"
+      | some so =>
+        match judgePhaseTeardown s pcfgS st sys so with
         | some b => return s!"{b} step={i}"
         | none => pure ()
     if st.op == "phase" && which == .c09 then
